@@ -6,6 +6,7 @@ from vlib import *
 import envgen as eg
 
 PID = "C05"
+SIG_RAW = "C05.reply_error_raw_identifier_field"
 FLAGS = ("oneway", "more", "upgrade")
 
 
@@ -47,6 +48,12 @@ def call_frames(rng, mname):
                   ("struct_noparams", [("method", "a.B")]), ("struct_null", [("method", "a.B"), ("parameters", None)]),
                   ("struct_wrong", [("method", "a.B"), ("parameters", eg.O(("id", "1"), ("name", "n")))]),
                   ("no_method", [("parameters", None)]), ("method_not_a_name", [("method", 1)])]
+    elif mname == "methn":   # a method type whose own members are near misses of the flag names
+        heads += [("near_own_members", [("method", "a.B"), ("More", True), ("ONEWAY", "no"), ("upgrade_", 7), ("mor", False)]),
+                  ("near_own_members", [("method", "a.B"), ("More", False), ("mor", True)]),
+                  ("near_own_members", [("method", "a.B")]),
+                  ("near_own_wrong", [("method", "a.B"), ("More", "yes")]),
+                  ("near_own_wrong", [("method", "a.B"), ("ONEWAY", True)])]
     else:  # serde_json::Value: everything that is not a flag passes through
         heads += [("value", [("method", "a.B"), ("parameters", eg.O(("k", [1, eg.Flt("2.5")])))]),
                   ("value", [("zeta", 1), ("alpha", eg.O(("b", 2), ("a", 1)))]), ("value", []),
@@ -67,6 +74,25 @@ def call_frames(rng, mname):
         out.append(({"head": hcls, "flags": "set2", "extra": 1}, head + [("more", True), ("x-unknown", eg.O(("oneway", True)))]))
         out.append(({"head": hcls, "flags": "set0", "extra": 2}, head + [("zz", [1]), ("aa", None)]))
         out.append(({"head": hcls, "flags": "set1", "extra": "escaped_key"}, head + [("oneway", True), ("q\"k", 1)]))
+    # member names that are NOT flags (case variants, prefixes / suffixes, one character off, look-alikes):
+    # they are ordinary members - unknown ones are passed to the method type, which ignores / keeps /
+    # rejects them by its own rules - with boolean and non-boolean values, alone and next to the real flag
+    own = {k for _, head in heads for k, _ in head}
+    for hi, (hcls, head) in enumerate(heads):
+        head = [m for m in head if m[1] is not eg.ABSENT]
+        names = [n for n in eg.NEAR_FLAG_NAMES if n not in own or mname == "methn"]
+        picks = [(n, v) for n in names for v in (True, "no")] if hi < 2 else \
+                [(rng.choice(names), rng.choice([True, False, "no", 5, None])) for _ in range(6)]
+        for n, v in picks:
+            if any(k == n for k, _ in head):
+                continue
+            out.append(({"head": hcls, "flags": "set0", "extra": "near_flag_name"}, head + [(n, v)]))
+        for n in rng.sample(names, 4):
+            if any(k == n for k, _ in head):
+                continue
+            real = rng.choice(FLAGS)
+            out.append(({"head": hcls, "flags": "near+real", "extra": "near_flag_name"},
+                        head + [(n, rng.choice([True, False, "x"])), (real, True)]))
     return out
 
 
@@ -182,6 +208,12 @@ def gen_cases(ck):
                             len(cases), p=pname, e=ename)
             if grp:
                 c["spell"] = grp
+            if ename == "raw":
+                # the spelling the derive uses as of fe0c0b5 for un-renamed raw-identifier fields
+                for perm in orders[:2]:
+                    twin = eg.asis_names(eg.Obj(perm))
+                    if twin != eg.Obj(perm):
+                        add("reply", twin, dict(tags, **{"class": "error_raw_ident_names"}), p=pname, e=ename)
     # ---- success replies
     for pname in eg.PTYPES:
         for tags, ms, _ in success_frames(rng, pname):
@@ -226,6 +258,7 @@ BUILD_METHODS = {
     "meths": [eg.O(("method", "a.B"), ("parameters", eg.O(("id", 1), ("name", "n")))),
               eg.O(("method", "a.B"), ("parameters", None))],
     "value": [eg.O(("zeta", 1), ("alpha", eg.O(("b", 2), ("a", [1])))), eg.O(), 5],
+    "methn": [eg.O(("method", "a.B"), ("More", True), ("ONEWAY", "no"), ("upgrade_", 7))],
     "vsmethod": [eg.O(("method", "org.varlink.service.GetInfo")),
                  eg.O(("method", "org.varlink.service.GetInterfaceDescription"), ("parameters", eg.O(("interface", "org.x"))))],
 }
@@ -524,9 +557,16 @@ def main():
                 n_schema += 1
         for m in msgs:
             if m:
+                # the un-rawed wire name of a raw-identifier field: open finding while the derive spells it r#name
+                sig = SIG_RAW if (c.get("e") == "raw" and "wire names" in m and not eg.raw_ident_unrawed()[0]
+                                  and any(k.startswith("r#") for k in (eg.jparse(r["d_err"]["enc"]).get("parameters") or eg.O()).keys())) \
+                    else None
                 ck.violation("encoding does not follow the schema: %s (%s)" % (m, c["frame"][:100]),
-                             {"case": pub(c), "impl": r}, tag="schema%d" % c["id"])
+                             {"case": pub(c), "impl": r}, tag="schema%d" % c["id"], sig=sig)
                 break
+        if c["op"] == "reply" and r.get("d_err") and r["d_err"].get("wire") != r["d_err"]["enc"] + "\0":
+            ck.violation("send_error writes something else than serde_json's encoding of the error: %r" % (r["d_err"].get("wire"),),
+                         {"case": pub(c), "impl": r}, tag="ewire%d" % c["id"], no_input=True)
 
     # ---- groups: member order must not matter; the three spellings of "no parameters"
     def observable(c, r):
@@ -600,19 +640,28 @@ def main():
             ck.violation("model evaluation failed: " + str(e)[:300], {"log": str(e)}, tag="eval-" + name, no_input=True)
             return
         n_spec = n_model = 0
+        n_known = [0]
         for idx in sorted(bad):
             c, r = items[idx]
             code = bad[idx] & ~64        # 64 = non-object reply frame not a decode error: C04's business
             if not code:
                 continue
             spec = code & (2 | 4)
+            sig = SIG_RAW if (spec and c.get("e") == "raw" and not code & (1 | 16 | 32)
+                              and not eg.raw_ident_unrawed()[0]) else None
+            if sig and any(fd.get("signature") == sig and fd.get("status") == "open" for fd in ck.findings):
+                n_known[0] += 1
+                if n_known[0] <= 2:
+                    ck.violation("%s differs from what the property prescribes: %s" % (what, cf(c)[:140]),
+                                 {"case": pub(c), "impl": r, "code": code}, tag="k%d" % c["id"], sig=sig)
+                continue
             if (spec and n_spec >= 5) or (not spec and n_model >= 5):
                 continue
             model = ck.coq_show(eg.HEADER, "%s (%s)" % (show, render(c, r)))
             if spec:
                 n_spec += 1
                 ck.violation("%s differs from what the property prescribes: %s" % (what, cf(c)[:140]),
-                             {"case": pub(c), "impl": r, "model_spec": model, "code": code}, tag="s%d" % c["id"])
+                             {"case": pub(c), "impl": r, "model_spec": model, "code": code}, tag="s%d" % c["id"], sig=sig)
             else:
                 n_model += 1
                 names = {1: "decoding differs from the model", 8: "the connection-level receive differs from serde_json::from_str",
@@ -657,6 +706,8 @@ def main():
         "from_value_and_from_reader_decodes_compared_with_from_str": n_paths,
         "frames_with_escaped_member_names": sum(1 for c, _ in allc if "names" in c["tags"]),
         "permutation_groups": n_perm_groups, "no_parameters_spelling_groups": n_spell_groups,
+        "reply_error_derive_unraws_field_names": list(eg.raw_ident_unrawed()),
+        "near_flag_name_frames": sum(1 for c, _ in allc if c["tags"].get("extra") == "near_flag_name"),
         "method_types": sorted(eg.MTYPES), "error_types": sorted(eg.ETYPES) + ["varlink_service::Error"],
         "parameter_types": sorted(eg.PTYPES), "proxy_methods": sorted(eg.PROXY),
     })
